@@ -26,6 +26,7 @@ HARNESSES = {
 BOUNDS = {'quick': {'H1': 1, 'H2': 1, 'H3': 1, 'H4': 1, 'H5': 1, 'H6': 2, 'H7': 1, 'H8': 1, 'H9': 1},
           'thorough': {'H1': 2, 'H2': 2, 'H3': 2, 'H4': 2, 'H5': 2, 'H6': 3, 'H7': 2, 'H8': 2, 'H9': 2}}
 PARTS = 16
+CLOSURE = {'quick': ['H6'], 'thorough': ['H1', 'H2', 'H4', 'H5', 'H6', 'H8']}      # harnesses searched over *all* interleavings (lv.sched_closure)
 
 
 def judge(ex, h):
@@ -91,12 +92,13 @@ class C11(F.Check):
     assumptions = [
         'scheduling points: every source line of lomond/{websocket,session,compression,frame,mask}.py, lock acquire/release, sendall midpoint; finer interleavings are not explored (GIL: bytecodes are atomic)',
         'the receive path is private to the loop thread and runs without scheduling points',
-        'preemption-bounded; "randomly beyond the bound" is outside this family',
+        'two searches: (1) preemption-bounded over every harness; (2) for the 2-thread harnesses listed under CLOSURE an explicit-state search over ALL interleavings (lv.sched_closure: state = every thread\'s lomond frame stack with locals + heap reachable from the WebSocket + bytes on the wire), complete unless a cap is reported; "randomly beyond the bound" is outside this family',
     ]
     expect_sites = tuple('harness:' + k for k in HARNESSES)
 
     def rule(self, tier):
-        return ('harnesses %s; preemption bounds %s; every schedule is a full execution on fresh objects. '
+        return ('all-interleavings search for %s; ' % CLOSURE[tier] +
+                'harnesses %s; preemption bounds %s; every schedule is a full execution on fresh objects. '
                 'distinct = distinct (harness, wire opcode sequence)' % (sorted(HARNESSES), BOUNDS[tier]))
 
     def bounds(self, tier):
@@ -112,6 +114,8 @@ class C11(F.Check):
                 chunk = items[k::PARTS]
                 if chunk:
                     jobs.append({'h': h, 'bound': bound, 'items': [[p, u, m] for (p, u, m) in chunk], 'first': k == 0})
+        for h in CLOSURE[tier]:
+            jobs.append({'h': h, 'closure': True})
         return jobs
 
     def run_job(self, job):
@@ -120,6 +124,25 @@ class C11(F.Check):
         h = HARNESSES[hname]
         run_one = thr.make_runner(dict(h, name=hname))
         res.covered.add('harness:' + hname)
+        if job.get('closure'):
+            from .. import sched_closure
+
+            def on_full(ex):
+                res.executions += 1
+                res.outcomes[repr((hname, tuple((f.opcode, len(f.payload)) for f in ex.frames)))] += 1
+                for kind, msg in judge(ex, h):
+                    res.violate('C11:%s:%s' % (hname, kind), msg + ' [found by the all-interleavings search]',
+                                {'h': hname, 'choices': list(ex.sched.taken)})
+            r = sched_closure.explore_all(run_one, on_full, max_states=300000)
+            res.states |= set(F.hs((hname, 'closure', k)) for k in r['seen'])
+            res.n_transitions += r['transitions']
+            res.counters['closure_states:' + hname] = r['states']
+            res.counters['closure_runs:' + hname] = r['runs']
+            res.covered.add('closure:' + hname)
+            if r['capped']:
+                res.caps.append('all-interleavings search of %s capped at %d states' % (hname, r['states']))
+            res.samples.append({'all_interleavings': hname, 'states': r['states'], 'executions': r['runs'], 'complete': not r['capped']})
+            return res
 
         def on_exec(ex):
             res.executions += 1
